@@ -597,9 +597,9 @@ fn minimise_case(case: &Case, class: &str, t: i64, wall: bool) -> Case {
         return case.clone();
     }
     let fails = |c: &Case| -> bool {
-        let z = match parse_case(c) {
-            Ok(z) => z,
-            Err(_) => return false,
+        let z = match crate::worker::guarded(|| parse_case(c)) {
+            Ok(Ok(z)) => z,
+            _ => return false,
         };
         let p = Probes { instants: if wall { vec![] } else { vec![t] }, walls: if wall { vec![t] } else { vec![] }, near: 0 };
         // round-trip classes come from instants; probe both ways around t
@@ -790,11 +790,16 @@ pub fn replay(v: &Value) -> i32 {
     } else {
         Probes { instants: vec![t], walls: vec![], near: 0 }
     };
-    let z = match parse_case(&case) {
-        Ok(z) => z,
-        Err(e) => {
+    let z = match crate::worker::guarded(|| parse_case(&case)) {
+        Ok(Ok(z)) => z,
+        Ok(Err(e)) => {
             println!("zone no longer parses: {}", e);
             return 0;
+        }
+        Err(p) => {
+            println!("the reader panicked on this zone: {}", p);
+            println!("VIOLATION property=C05 replay=<this file>");
+            return 1;
         }
     };
     let mut tl = Tally::default();
